@@ -38,7 +38,7 @@ func (*c15) ID() string                      { return "C15" }
 func (*c15) Level() string                   { return "fault_enumeration" }
 func (*c15) Decode(raw []byte) (any, error) { return decodeInto[C15Scenario](raw) }
 
-var c15Alphabet = []string{"first-ok", "first-foreign", "first-trunc", "first-malformed", "final-ok", "final-prev", "final-other", "final-empty", "empty", "junk", "235", "535"}
+var c15Alphabet = []string{"first-ok", "first-foreign", "first-trunc", "first-malformed", "first-iter0", "final-ok", "final-prev", "final-other", "final-empty", "final-zerokey", "final-blank", "empty", "junk", "235", "535"}
 
 type c15Variant struct{ mech, tls string }
 
@@ -190,7 +190,7 @@ func (p *c15) Exec(t *testing.T, scAny any) Outcome {
 		out.violate("C15:honest-path-refused", "%s: the honest sequence [%s] ended in an error: %v", sc.Mech, path, call.Err)
 	}
 	for _, s := range tr {
-		if strings.HasPrefix(s.Sym, "first-") && !s.Valid && s.ClientMsg == "final" {
+		if strings.HasPrefix(s.Sym, "first-") && !s.Valid && s.ClientMsg == "final" && s.Sym != "first-iter0" {
 			out.violate("C15:proof-sent-after-invalid-first:"+s.Sym, "%s: the client answered the invalid server-first message %q with a client-final message (its proof) instead of ending the exchange (path [%s])", sc.Mech, s.Sym, path)
 		}
 		if strings.HasPrefix(s.Sym, "final-") && s.ClientMsg == "empty" && !s.Valid {
@@ -224,7 +224,7 @@ func classifyPath(tr []refsmtpd.AdvStep) string {
 			parts = append(parts, "235")
 		case strings.HasPrefix(s.Sym, "final-") && s.ClientMsg == "empty":
 			parts = append(parts, s.Sym+"(acked)")
-		case strings.HasPrefix(s.Sym, "first-") && s.ClientMsg == "final":
+		case strings.HasPrefix(s.Sym, "first-") && s.ClientMsg == "final" && s.Sym != "first-iter0":
 			// the client went on with its proof after a server-first that is not valid
 			parts = append(parts, s.Sym+"(accepted)")
 		}
@@ -260,7 +260,7 @@ func (p *c15) Shrink(scAny any) []any {
 
 func (p *c15) Info() PropInfo {
 	return PropInfo{
-		Rule: "enumeration: all sequences of length 1..4 (thorough: 1..5) over the 12-symbol server alphabet {first-ok, first-foreign, first-trunc, first-malformed, final-ok, final-prev (valid for the previous, abandoned exchange), final-other, final-empty, empty, junk, 235, 535} for SCRAM-SHA-256, SCRAM-SHA-1, SCRAM-SHA-256-PLUS over TLS 1.3, SCRAM-SHA-1-PLUS over TLS 1.2 (thorough: both PLUS variants over both TLS versions); sequences that continue after 235/535 are counted as duplicates of their prefix; non-trivial = an AUTH exchange took place; distinct = distinct (mechanism, TLS version, sequence of messages actually played, outcome)",
+		Rule: "enumeration: all sequences of length 1..4 (thorough: 1..5) over the 15-symbol server alphabet {first-ok, first-foreign, first-trunc, first-malformed, first-iter0 (iteration count 0), final-zerokey (computed with an all-zero salted password), final-blank (\"v=\"), final-ok, final-prev (valid for the previous, abandoned exchange), final-other, final-empty, empty, junk, 235, 535} for SCRAM-SHA-256, SCRAM-SHA-1, SCRAM-SHA-256-PLUS over TLS 1.3, SCRAM-SHA-1-PLUS over TLS 1.2 (thorough: both PLUS variants over both TLS versions); sequences that continue after 235/535 are counted as duplicates of their prefix; non-trivial = an AUTH exchange took place; distinct = distinct (mechanism, TLS version, sequence of messages actually played, outcome)",
 		Assumptions: []string{"the adversary's 'valid' messages are computed by the reference SCRAM implementation (validated on the RFC 5802/7677 vectors at start-up) from the real password; all other messages are computable without it",
 			"server-final messages are delivered as 334 challenges followed by 235, as SMTP servers do (RFC 4954 has no data in the 235 reply)"},
 		Real:        []string{"go-mail smtp.Client.Auth, scramAuth (all four variants), Client.DialWithContext, channel-binding derivation", "crypto/tls on both ends for the PLUS variants"},
